@@ -14,7 +14,11 @@ def getKV (m : List (String × String)) (k : String) : String :=
   ((m.find? (·.1 == k)).map (·.2)).getD ""
 
 def parseLKey (s : String) : Option Key :=
-  if s.startsWith "L" then (s.drop 1).toString.toNat?.map Key.registered else none
+  if s.startsWith "L" then (s.drop 1).toString.toNat?.map Key.registered
+  -- padding identities and the user's own P-384 key: further long-term keys
+  else if s.startsWith "P" then (s.drop 1).toString.toNat?.map fun n => Key.registered (1000 + n)
+  else if s == "E1" then some (Key.registered 999)
+  else none
 
 def parseFile (s : String) : Option FileState :=
   if s == "abs" then some .absent
@@ -83,7 +87,8 @@ def showErrKind : ErrKind → String
 
 /-- fresh keys are named by creation order -/
 def keyName (fresh : List Nat) : Key → String
-  | .registered n => if n ≥ 500 then "S" ++ toString n else "L" ++ toString n
+  | .registered n => if n ≥ 1000 then "P" ++ toString (n - 1000) else if n = 999 then "E1"
+      else if n ≥ 500 then "S" ++ toString n else "L" ++ toString n
   | .fresh n => "f" ++ toString (fresh.idxOf n)
 
 def certName : Option CertV → String
